@@ -5,6 +5,8 @@ import (
 	"fmt"
 	"math/rand"
 	"strings"
+	"sync"
+	"sync/atomic"
 	"time"
 
 	"bwverif/bq"
@@ -272,6 +274,103 @@ func c08Sentences(r *rt.Rec, rng *rand.Rand, n int) {
 	}
 }
 
+// c08Concurrent runs update statements and read statements on one store at the
+// same time: every statement still has to come back with a table or an error,
+// no goroutine of the engine may panic (which would end this worker and be
+// attributed to the case) and none may be left behind.
+func c08Concurrent(r *rt.Rec, rng *rand.Rand, storeKind, rounds int) {
+	ctx := context.Background()
+	st := c08Store(ctx, storeKind)
+	st.NewGraph(ctx, "?cw")
+	label := fmt.Sprintf("[%s] concurrent update and read statements", c08StoreNames[storeKind])
+	r.Begin(label)
+	before := rt.Snapshot()
+	batch := func(k, n int) string {
+		var b strings.Builder
+		for j := 0; j < n; j++ {
+			if j > 0 {
+				b.WriteString(" .\n")
+			}
+			fmt.Fprintf(&b, "/n<w%d> \"p%d\"@[] /n<o%d>", (k*n+j)%977, j%3, j%41)
+		}
+		return b.String()
+	}
+	reads := []string{
+		"select ?s, ?p, ?o from ?cw where {?s ?p ?o} limit \"1\"^^type:int64;",
+		"select ?s, ?p, ?o from ?cw where {?s ?p ?o};",
+		"select ?o from ?cw where {/n<w3> ?p ?o};",
+		"select ?s from ?cw where {?s \"p1\"@[] /n<o7>};",
+		"select count(?s) as ?n from ?cw where {?s ?p ?o};",
+		"select ?s, ?q from ?cw where {?s \"p0\"@[] ?o . ?o ?q ?z};",
+	}
+	var wg sync.WaitGroup
+	var mu sync.Mutex
+	bad := func(key, text string) {
+		mu.Lock()
+		defer mu.Unlock()
+		r.Violation(key, "a statement run while other statements were updating the same graph returned neither a table nor an error", map[string]string{"statement": trim(text, 300), "store": c08StoreNames[storeKind]})
+	}
+	done := make(chan struct{})
+	var nUpd int64
+	sizes := []int{1, 40, 400, 1500}
+	wg.Add(1)
+	go func() {
+		defer wg.Done()
+		defer close(done)
+		for k := 0; k < rounds; k++ {
+			n := sizes[k%len(sizes)]
+			verb := "insert"
+			if k%3 == 2 {
+				verb = "delete"
+			}
+			text := verb + " data into ?cw {" + batch(k, n) + "};"
+			if verb == "delete" {
+				text = "delete data from ?cw {" + batch(k-1, n) + "};"
+			}
+			tbl, _, err := bq.Run(ctx, st, text, k%3, []int{1, 2, 1000}[k%3])
+			if err == nil && tbl == nil {
+				bad("no-table-no-error/concurrent-"+verb, text)
+			}
+			if err == nil {
+				atomic.AddInt64(&nUpd, 1)
+			}
+		}
+	}()
+	var nReads int64
+	for c := 0; c < 3; c++ {
+		wg.Add(1)
+		seedC := rng.Int63()
+		go func(c int) {
+			defer wg.Done()
+			lr := rand.New(rand.NewSource(seedC))
+			for n := 0; ; n++ {
+				select {
+				case <-done:
+					return
+				default:
+				}
+				text := reads[lr.Intn(len(reads))]
+				tbl, _, err := bq.Run(ctx, st, text, n%3, []int{1, 2, 1000}[n%3])
+				if err == nil && tbl == nil {
+					bad("no-table-no-error/concurrent-select", text)
+				}
+				atomic.AddInt64(&nReads, 1)
+			}
+		}(c)
+	}
+	wg.Wait()
+	r.Eval(rounds + int(nReads))
+	r.Count("concurrent_update_statements", int(nUpd))
+	r.Count("concurrent_read_statements", int(nReads))
+	if left := rt.Leaked(before, 2*time.Second); len(left) > 0 {
+		r.Violation("goroutine-leak/concurrent/"+rt.LeakClass(left[0]), fmt.Sprintf("%d goroutine(s) started for statements run concurrently are still alive after all of them returned", len(left)),
+			map[string]string{"store": c08StoreNames[storeKind], "stack": trim(left[0].Stack, 1500)})
+	}
+	if nReads > 0 && int(nUpd) == rounds {
+		r.Nontrivial(label + fmt.Sprint(rng.Int63()))
+	}
+}
+
 func c08Random(r *rt.Rec, rng *rand.Rand, n int) {
 	words := []string{"select", "from", "where", "{", "}", ";", "?a", "?g1", "/u<a>", `"p"@[]`, `"5"^^type:int64`, ".", ",", "insert", "data", "into", "group", "by", "having", "limit", "(", ")", "count", "as", "optional", "filter", "latest", "between", "2016-01-01T00:00:00Z", "\"", "<", ">", "="}
 	for i := 0; i < n; i++ {
@@ -307,14 +406,16 @@ func init() {
 	register(&rt.Check{
 		ID:    "C08",
 		Level: "exploration",
-		Rule: "statement texts against an empty store, a populated memory store and the populated store wrapped in the memoizer: (a) every token sequence up to length L over the 55 token kinds rendered to text (L=2 quick, 3 thorough; complete), (b) generated statements of all eight kinds (vocabulary hitting and missing the data, LIMIT 0/1/-1/2^63-1/float/text, aggregates over empty patterns, bindings reused across S/P/O/ID/TYPE/AT positions, OPTIONAL, bounds), (b2) statements that go wrong only while rows are processed: aggregates (sum / count / count distinct) over columns mixing numeric literals with nodes, text, predicates and NULL in both FROM orders, CONSTRUCT / DECONSTRUCT over satisfiable patterns with exactly one ill-kinded binding in one template slot (first or later pair), lists that repeat a name (ORDER BY / GROUP BY keys, projections, graphs) with aliases on every projection, bindings left NULL by an OPTIONAL clause reused as subject / predicate / object / anchor / bound limit and in HAVING, ORDER BY, GROUP BY, aggregates and templates, (b3) every prefix of a statement that ends right after a token, two statements in one text, a statement followed by stray tokens, (b4) sentences derived at random from the grammar table, (c) character- and token-level mutations of (b), (d) random bytes, random UTF-8 and random keyword salad; a sample also under -race; " +
+		Rule: "statement texts against an empty store, a populated memory store and the populated store wrapped in the memoizer: (a) every token sequence up to length L over the 55 token kinds rendered to text (L=2 quick, 3 thorough; complete), (b) generated statements of all eight kinds (vocabulary hitting and missing the data, LIMIT 0/1/-1/2^63-1/float/text, aggregates over empty patterns, bindings reused across S/P/O/ID/TYPE/AT positions, OPTIONAL, bounds), (b2) statements that go wrong only while rows are processed: aggregates (sum / count / count distinct) over columns mixing numeric literals with nodes, text, predicates and NULL in both FROM orders, CONSTRUCT / DECONSTRUCT over satisfiable patterns with exactly one ill-kinded binding in one template slot (first or later pair), lists that repeat a name (ORDER BY / GROUP BY keys, projections, graphs) with aliases on every projection, bindings left NULL by an OPTIONAL clause reused as subject / predicate / object / anchor / bound limit and in HAVING, ORDER BY, GROUP BY, aggregates and templates, (b3) every prefix of a statement that ends right after a token, two statements in one text, a statement followed by stray tokens, (b4) sentences derived at random from the grammar table, (b5) INSERT / DELETE statements of 1 to 1500 triples on a graph while three clients run full-scan, by-subject, by-predicate-object, aggregate and join SELECTs on it (memory store and memoizer; also under -race), (c) character- and token-level mutations of (b), (d) random bytes, random UTF-8 and random keyword salad; a sample also under -race; " +
 			"monitor per statement, in a journaling worker process: recover() in the calling goroutine, process exit (panic in an engine goroutine, fatal error, log.Fatal), all-goroutines-blocked and hard watchdog, goroutine-leak snapshot after return, table-xor-error; non-trivial = reached Execute (parsed and planned) or was rejected after >=3 tokens; distinct by text",
 		Assume: []string{"termination is restated as bounded progress (hard watchdog 120 s per batch, cases take milliseconds)", "a goroutine counts as started on behalf of the call if it was created by badwolf code after the pre-call snapshot"},
 		Floor:  500,
 		Phases: func(tier string, seed int64) []rt.Phase {
 			maxLen, g, m, rn, rc, itc, trn, sn := 2, 3000, 3000, 2000, 240, 40, 4, 4000
+			conc := 24
 			if tier == "thorough" {
 				maxLen, g, m, rn, rc, itc, trn, sn = 3, 50000, 50000, 50000, 3000, 600, 60, 40000
+				conc = 120
 			}
 			kinds := gram.AllKinds()
 			per := 60
@@ -325,6 +426,8 @@ func init() {
 				{Name: "runtime-typed", N: 16, Run: func(i int, r *rt.Rec) { c08RuntimeTyped(r, gen.Rng(seed, "c08t", i), i, 16, itc) }},
 				{Name: "sentences", N: 16, Run: func(i int, r *rt.Rec) { c08Sentences(r, gen.Rng(seed, "c08s", i), sn/16) }},
 				{Name: "truncations", N: 16, Run: func(i int, r *rt.Rec) { c08Truncations(r, gen.Rng(seed, "c08u", i), trn) }},
+				{Name: "concurrent", N: 4, Run: func(i int, r *rt.Rec) { c08Concurrent(r, gen.Rng(seed, "c08c", i), 1+i%2, conc) }},
+				{Name: "concurrent-race", N: 2, Race: true, Run: func(i int, r *rt.Rec) { c08Concurrent(r, gen.Rng(seed, "c08cr", i), 1+i%2, conc/4) }},
 				{Name: "random", N: rn / per, Run: func(i int, r *rt.Rec) { c08Random(r, gen.Rng(seed, "c08r", i), per) }},
 				{Name: "race-sample", N: rc / per, Race: true, Run: func(i int, r *rt.Rec) { c08Generated(r, gen.Rng(seed, "c08x", i), per, i%2 == 1) }},
 			}
